@@ -48,7 +48,7 @@ def snapshot(model) -> dict:
                     if fl is not None and hasattr(fl, "writeable"):
                         d["raw_flags"] = [bool(fl.writeable), bool(fl.c_contiguous), bool(fl.f_contiguous)]
                 try:
-                    d["bytes"] = sha(t.tobytes())
+                    d["bytes"] = sha(b"\0".join(t.string_data()) if t.dtype == ir.DataType.STRING else t.tobytes())
                 except Exception as e:  # noqa: BLE001 - an unreadable tensor is itself an observation
                     d["bytes"] = f"ERR:{type(e).__name__}"
             gi["inits"].append(d)
@@ -176,6 +176,10 @@ def check_roundtrip(path: str, model, expected: dict, check_ir_load: bool = True
             if t is None:
                 continue
             want = expected.get((TAG.get(g.name, g.name), tp.name))
+            if isinstance(want, tuple):   # ("STRINGS", [...])
+                if [bytes(x) for x in tp.string_data] != list(want[1]) or tp.data_type != onnx.TensorProto.STRING:
+                    probs.append({"reader": "raw", "dtype": "STRING", "what": f"{tp.name}: string values differ"})
+                continue
             if want is None:
                 want = t.tobytes()
             if int(t.dtype) != tp.data_type or [int(d) for d in t.shape] != list(tp.dims):
@@ -226,6 +230,11 @@ def check_roundtrip(path: str, model, expected: dict, check_ir_load: bool = True
                     if v.const_value is None:
                         continue
                     want = expected.get((TAG.get(g.name, g.name), k))
+                    if isinstance(want, tuple):
+                        t2 = g2.initializers[k].const_value
+                        if t2 is None or t2.dtype != ir.DataType.STRING or list(t2.string_data()) != list(want[1]):
+                            probs.append({"reader": "onnx_ir.load", "dtype": "STRING", "what": f"{k}: loaded string values differ"})
+                        continue
                     if want is None:
                         want = v.const_value.tobytes()
                     t2 = g2.initializers[k].const_value
